@@ -119,3 +119,10 @@ where
         self()
     }
 }
+
+#[cfg(feature = "verif")]
+impl<M: Message> crate::verif::VerifId for Caller<M> {
+    fn __verif_id(&self) -> u64 {
+        crate::verif::sender_or_caller_id(self.id)
+    }
+}
